@@ -26,6 +26,7 @@ func main() {
 	list := flag.Bool("list", false, "list properties")
 	dump := flag.String("dump", "", "dev aid: rel,recv,func — print all paths of a function")
 	dumpPat := flag.String("dump-pkgs", ".", "patterns to load for -dump")
+	variant := flag.String("variant-overlay", "", "internal (thorough self-test): run the quick rules on /repo overlaid with the files under this directory, print one VARIANT line, write nothing")
 	flag.Parse()
 	if *dump != "" {
 		f := strings.Split(*dump, ",")
@@ -56,6 +57,9 @@ func main() {
 	if p == nil {
 		fmt.Fprintf(os.Stderr, "unknown property %q\n", *prop)
 		os.Exit(2)
+	}
+	if *variant != "" {
+		os.Exit(runVariant(p, *repo, *root, *variant))
 	}
 	onlySet := map[string]bool{}
 	if *replay != "" {
@@ -99,5 +103,35 @@ func run(p *props.Property, tier string, seed int64, repo, root string, only map
 	if tier == "thorough" && p.Thorough != nil {
 		p.Thorough(ctx)
 	}
-	return ctx.Finish(p.Explanation, p.Assumptions)
+	misses := 0
+	if tier == "thorough" && len(only) == 0 {
+		var rows []selfRow
+		rows, misses = selfTest(p, repo, root)
+		reported, skipped := 0, 0
+		for _, r := range rows {
+			switch r.Outcome {
+			case "reported":
+				reported++
+			case "skipped":
+				skipped++
+			}
+		}
+		if ctx.Extra == nil {
+			ctx.Extra = map[string]any{}
+		}
+		ctx.Extra["selftest"] = map[string]any{"what": "each seeded change under seeded/" + p.ID + "-* applied as an in-memory overlay and checked with the quick rules; /repo untouched",
+			"variants": len(rows), "reported": reported, "skipped": skipped, "misses": misses, "rows": rows}
+		fmt.Printf("selftest %s: %d seeded variants, %d reported, %d skipped, %d missed that were recorded as caught\n", p.ID, len(rows), reported, skipped, misses)
+		for _, r := range rows {
+			if r.Outcome == "silent" && r.Expected != "missed" {
+				fmt.Printf("SELFTEST-MISS property=%s seed=%s (recorded as %s, the rules are silent on it now)\n", p.ID, r.Seed, r.Expected)
+			}
+		}
+	}
+	code = ctx.Finish(p.Explanation, p.Assumptions)
+	if code == 0 && misses > 0 {
+		fmt.Printf("UNDECIDED property=%s the rules no longer report %d of their own seeded positive examples; a silent run proves nothing\n", p.ID, misses)
+		return 3
+	}
+	return code
 }
